@@ -1,12 +1,17 @@
 import EaModel.DstParam
 import EaModel.Lemmas.Zone
+import EaModel.Lemmas.DstYear
+import EaModel.Lemmas.DstYearEU
 /-!
 # C20 — a time of day accepted without DST policy is safe for the whole year
 
-Proved here: the decision logic of `check_dst_handling` on top of what `find_time` reports, and what the four
-probes of `find_time` establish. The step from "the probed hour" to "every day of the year" depends on the zone's
-rules being regular within the year; it is decided per zone-year by the exhaustive comparison of model, code and a
-zoneinfo scan of every day of the year (the check's correspondence and oracle), see DESIGN.md.
+Proved here: the decision logic of `check_dst_handling` on top of what `find_time` reports, what the four
+probes of `find_time` establish, and the step from "the probed hour" to "every day of the year"
+(`accepted_safe_all_year`) under an explicit regularity hypothesis on the zone's rules within the year
+(`YearRegular`: changes aligned to clock hours, one hour per direction, the scan visits every local date), which is
+proved for a zone-year with the shape of Europe/Berlin (`accepted_safe_all_year_zEU70`). Whether a real zone-year
+is regular is decided per zone-year by the exhaustive comparison of model, code and a zoneinfo scan of every day
+of the year (the check's correspondence and oracle), see DESIGN.md.
 -/
 namespace Ea.C20
 
@@ -87,12 +92,19 @@ theorem find_time_probes (z : Zone) (year : Int) (rev fwd : Bool) (h : Nat) (hf 
           · exact e
           · exact absurd (Or.inr e) h2
 
-/-- validity is exactly PEP 495: `valid` ⇔ exactly one instant shows the reading (sorted tables) -/
+/-- validity is exactly PEP 495 (sorted tables): `valid` ⇔ exactly one instant shows the reading, `skipped` ⇔ none,
+`repeated` ⇔ at least two -/
 theorem validity_sound (z : Zone) (hs : z.Sorted) (L : Int) :
+    (z.validity L = .valid → ∃ u, z.toLocal u = L ∧ ∀ v, z.toLocal v = L → v = u) ∧
     (z.validity L = .skipped → ∀ v, z.toLocal v ≠ L) ∧
     (z.validity L = .repeated → ∃ a b, a < b ∧ z.toLocal a = L ∧ z.toLocal b = L) := by
   simp only [Zone.validity]
-  constructor
+  refine ⟨?_, ?_, ?_⟩
+  · intro h
+    split at h
+    · next u hu => exact ⟨u, z.resolve_unique' hs L u hu⟩
+    · simp at h
+    · simp at h
   · intro h
     split at h
     · simp at h
@@ -105,6 +117,153 @@ theorem validity_sound (z : Zone) (hs : z.Sorted) (L : Int) :
     · next a b hf =>
       obtain ⟨h1, h2, h3, _⟩ := z.resolve_fold hs L a b hf
       exact ⟨a, b, h3, h1, h2⟩
+
+/-! ### from the probed hour to every day of the year -/
+
+theorem findTime_hour_scan (z : Zone) (year : Int) (rev fwd : Bool) (h : Nat) (hf : findTime z year rev = .hour fwd h) :
+    ∃ u v, dstScan z year rev = some (u, h, v) ∧ (fwd = true ↔ v = .skipped) := by
+  obtain ⟨u, v, h1, h2, _⟩ := find_time_probes z year rev fwd h hf
+  exact ⟨u, v, h1, h2⟩
+
+theorem findTime_nothing_scan (z : Zone) (year : Int) (rev : Bool) (hf : findTime z year rev = .nothing) :
+    dstScan z year rev = none := by
+  unfold findTime at hf
+  split at hf
+  · assumption
+  · dsimp only at hf
+    split at hf
+    · simp at hf
+    · split at hf <;> simp at hf
+
+/-- **C20, the whole year**: in a year in which the zone's rules are regular (`YearRegular`: changes aligned to
+clock hours, one hour per direction, the scan visits every local date of the year) a time of day that
+`check_dst_handling` accepts without a forward policy is skipped on no day of the year, and one accepted without
+a backward policy is repeated on no day of the year — for every combination of given / missing policies -/
+theorem accepted_safe_all_year (z : Zone) (year : Int) (InYear : Int → Prop) (hreg : YearRegular z year InYear)
+    (t : Int) (h0 : 0 ≤ t) (h1 : t < NS_PER_DAY) (fwd : Option Skipped) (bwd : Option Repeated)
+    (r : Skipped × Repeated) (h : checkDst z year t fwd bwd = .ok r) :
+    (fwd = none → ∀ D, InYear D → z.validity (D * NS_PER_DAY + t) ≠ .skipped) ∧
+    (bwd = none → ∀ D, InYear D → z.validity (D * NS_PER_DAY + t) ≠ .repeated) := by
+  -- what an accepted call tells us about the setup
+  have hacc : ¬ (fwd.isSome ∧ bwd.isSome) → ∃ rf rb, dstSetup z year = .ok (rf, rb) ∧
+      (fwd = none → rf.required t = false) ∧ (bwd = none → rb.required t = false) := by
+    intro hnb
+    unfold checkDst at h
+    rw [if_neg (by simpa using hnb)] at h
+    split at h
+    · simp at h
+    · next rf rb hs =>
+      refine ⟨rf, rb, hs, ?_, ?_⟩
+      · intro hf; subst hf
+        by_cases e : rf.required t = true
+        · simp [e] at h
+        · simpa using e
+      · intro hb; subst hb
+        by_cases e1 : fwd.isNone ∧ rf.required t = true
+        · simp [e1] at h
+        · rw [if_neg (by simpa using e1)] at h
+          by_cases e : rb.required t = true
+          · simp [e] at h
+          · simpa using e
+  -- the core: a defect of kind `v` on a day of the year contradicts acceptance when the matching policy is missing
+  have core : ∀ (v : Validity), v ≠ .valid → ∀ D, InYear D → z.validity (D * NS_PER_DAY + t) = v →
+      ∀ rf rb, dstSetup z year = .ok (rf, rb) →
+        (v = .skipped → rf.required t = false) → (v = .repeated → rb.required t = false) → False := by
+    intro v hv D hD hval rf rb hs hrf hrb
+    have hne : z.validity (D * NS_PER_DAY + t) ≠ .valid := by rw [hval]; exact hv
+    have hf1 := scan_finds z year InYear hreg D t hD h0 h1 hne false
+    have hf2 := scan_finds z year InYear hreg D t hD h0 h1 hne true
+    unfold dstSetup at hs
+    split at hs
+    · next hn => exact hf1 (findTime_nothing_scan z year false hn)
+    · -- inconsistent: both directions required
+      simp at hs
+      obtain ⟨rfl, rfl⟩ := hs
+      cases v with
+      | valid => exact hv rfl
+      | skipped => simpa [Req.required] using hrf rfl
+      | repeated => simpa [Req.required] using hrb rfl
+    · next fwd1 hh1 hft1 =>
+      split at hs
+      · next hn => exact hf2 (findTime_nothing_scan z year true hn)
+      · simp at hs
+        obtain ⟨rfl, rfl⟩ := hs
+        cases v with
+        | valid => exact hv rfl
+        | skipped => simpa [Req.required] using hrf rfl
+        | repeated => simpa [Req.required] using hrb rfl
+      · next fwd2 hh2 hft2 =>
+        obtain ⟨u1, v1, hs1, hd1⟩ := findTime_hour_scan z year false fwd1 hh1 hft1
+        obtain ⟨u2, v2, hs2, hd2⟩ := findTime_hour_scan z year true fwd2 hh2 hft2
+        have hv1 := (dstScan_some z year false u1 hh1 v1 hs1).2.2
+        have hv2 := (dstScan_some z year true u2 hh2 v2 hs2).2.2
+        split at hs
+        · simp at hs
+        · next hdiff =>
+          -- exactly one of the two scans found a skipped reading, the other a repeated one
+          have hin : ∀ (rev : Bool) (u : Int) (hh : Nat) (w : Validity), dstScan z year rev = some (u, hh, w) → w = v →
+              (Req.hour hh).required t = true := by
+            intro rev u hh w hsw hw
+            subst hw
+            exact (required_hour hh t).2 (scan_hour z year InYear hreg rev u hh w hsw D t hD h0 h1 hval)
+          split at hs
+          · next hf1t =>
+            -- forward scan found the skipped hour hh1, reverse scan the repeated hour hh2
+            simp at hs
+            obtain ⟨rfl, rfl⟩ := hs
+            have e1 : v1 = .skipped := hd1.1 hf1t
+            have e2 : v2 = .repeated := by
+              have : ¬ (fwd2 = true) := fun e => hdiff (by rw [hf1t, e])
+              cases v2 with
+              | valid => exact absurd rfl hv2
+              | skipped => exact absurd (hd2.2 rfl) this
+              | repeated => rfl
+            cases v with
+            | valid => exact hv rfl
+            | skipped => have := hin false u1 hh1 v1 hs1 e1; rw [hrf rfl] at this; cases this
+            | repeated => have := hin true u2 hh2 v2 hs2 e2; rw [hrb rfl] at this; cases this
+          · next hf1f =>
+            simp at hs
+            obtain ⟨rfl, rfl⟩ := hs
+            have e2 : v2 = .skipped := by
+              have : fwd2 = true := by
+                cases fwd2 with
+                | true => rfl
+                | false =>
+                  have : fwd1 = false := by cases fwd1 with
+                    | true => exact absurd rfl hf1f
+                    | false => rfl
+                  exact absurd this hdiff
+              exact hd2.1 this
+            have e1 : v1 = .repeated := by
+              cases v1 with
+              | valid => exact absurd rfl hv1
+              | skipped => exact absurd (hd1.2 rfl) hf1f
+              | repeated => rfl
+            cases v with
+            | valid => exact hv rfl
+            | skipped => have := hin true u2 hh2 v2 hs2 e2; rw [hrf rfl] at this; cases this
+            | repeated => have := hin false u1 hh1 v1 hs1 e1; rw [hrb rfl] at this; cases this
+  constructor
+  · intro hf D hD hval
+    obtain ⟨rf, rb, hs, h1', h2'⟩ := hacc (by subst hf; simp)
+    exact core .skipped (by decide) D hD hval rf rb hs (fun _ => h1' hf) (fun e => by cases e)
+  · intro hb D hD hval
+    obtain ⟨rf, rb, hs, h1', h2'⟩ := hacc (by subst hb; simp)
+    exact core .repeated (by decide) D hD hval rf rb hs (fun e => by cases e) (fun _ => h2' hb)
+
+/-- the hypothesis is satisfiable — a zone-year with the shape of Europe/Berlin is regular (`Lemmas/DstYearEU.lean`:
+the analytic clauses by an exact description of `validity`, the scan clauses by kernel evaluation over all 365
+dates) — so there the statement holds without any hypothesis -/
+theorem accepted_safe_all_year_zEU70 (t : Int) (h0 : 0 ≤ t) (h1 : t < NS_PER_DAY) (fwd : Option Skipped)
+    (bwd : Option Repeated) (r : Skipped × Repeated) (h : checkDst zEU70 1970 t fwd bwd = .ok r) :
+    (fwd = none → ∀ D, InYear70 D → zEU70.validity (D * NS_PER_DAY + t) ≠ .skipped) ∧
+    (bwd = none → ∀ D, InYear70 D → zEU70.validity (D * NS_PER_DAY + t) ≠ .repeated) :=
+  accepted_safe_all_year zEU70 1970 InYear70 zEU70_year_regular t h0 h1 fwd bwd r h
+-- … and not vacuously: 03:00 is accepted without any policy, 02:30 is rejected, 02:30 with a forward policy only is rejected too
+#guard (checkDst zEU70 1970 (3 * NS_PER_HOUR) none none).toOption == some (.after, .earlier)
+#guard (checkDst zEU70 1970 (2 * NS_PER_HOUR + 30 * NS_PER_MIN) none none).toOption.isNone
+#guard (checkDst zEU70 1970 (2 * NS_PER_HOUR + 30 * NS_PER_MIN) (some .skip) none).toOption.isNone
 
 /-- the scan orders of the code (read from the imported source on every run) -/
 theorem scan_orders : Gen.dstMonthOrder = [3, 4, 11, 9, 10] ∧ Gen.dstHourOrder = [2, 3, 0, 1] := by decide
